@@ -5,6 +5,7 @@ package main
 // listed in evidence.
 
 import (
+	"os"
 	"fmt"
 	"go/types"
 	"math"
@@ -594,6 +595,7 @@ var stdExternals = map[string]externalFn{
 	"internal/bytealg.Index":             shimIndex,
 	"internal/bytealg.IndexString":       shimIndex,
 	"internal/bytealg.Compare":           shimCompare,
+	"internal/bytealg.CompareString":     shimCompare,
 	"internal/bytealg.Equal": func(fr *frame, args []value) value {
 		return seqEqual(fr, bytesOf(args[0]), bytesOf(args[1]))
 	},
@@ -840,6 +842,13 @@ var stdExternals = map[string]externalFn{
 
 
 func opaqueString(fr *frame) value {
+	if os.Getenv("VERIF_DEBUG_OPAQUE") != "" {
+		chain := ""
+		for f, k := fr, 0; f != nil && k < 8; f, k = f.caller, k+1 {
+			chain += " <- " + f.fn.String()
+		}
+		fmt.Fprintln(os.Stderr, "OPAQUE:", chain)
+	}
 	p := needPath(fr)
 	n := p.fresh("opaque.len", "int", bvSort(64))
 	tt := p.tt()
